@@ -16,7 +16,7 @@ def run(ctx):
     crosscheck_sym.guard(ctx)  # the symbolic-shape tensor layer against real torch, before the clauses that rest on it
     from contracts import C05_loop
 
-    api.run_vcs(ctx, C05_loop.loop_p_vcs(ctx), {"C05.P.search_loop": "real CTCPrefixSearch.forward source (no language model) for a SYMBOLIC number of frames, batch size, vocabulary and width, with the step under an opaque contract: per frame the step gets the softmax of that frame (label classes as extension and non-extension probabilities, blank class), the width and the current beam; an element carries the step's result while the frame is inside its length and its own beam unchanged afterwards; the result is nb + b, lengths and prefixes of the beam after the element's own frames (loop invariant over a recorded ghost history of beams)"})
+    api.run_vcs(ctx, C05_loop.loop_p_vcs(ctx), {"C05.P.search_loop": "real CTCPrefixSearch.forward source (no language model, and shallow fusion with any language model: queried on the current prefixes / lengths / state, fused extension probabilities, states re-indexed and mixed by the non-extension flags) for a SYMBOLIC number of frames, batch size, vocabulary and width, with the step under an opaque contract: per frame the step gets the softmax of that frame (label classes as extension and non-extension probabilities, blank class), the width and the current beam; an element carries the step's result while the frame is inside its length and its own beam unchanged afterwards; the result is nb + b, lengths and prefixes of the beam after the element's own frames (loop invariant over a recorded ghost history of beams)"})
     api.run_vcs(ctx, C05_vc.p_vcs(ctx), {"C05.P.advance_step": "real ctc_prefix_search_advance source for SYMBOLIC batch size, old width, vocabulary, prefix length and beam width: every slot below min(width, K'(V+1)) reports its source and kind, carries the recursion's blank / non-blank masses (merge sum checked summand-wise, void when the extension already is a beam prefix), the source's tokens grown by the token when extending; best-first, distinct candidates, fillers"})
     api.run_vcs(ctx, C05_vc.vcs(ctx), {"C05.S.advance_step": "real ctc_prefix_search_advance source: every output slot is a candidate of the prefix-beam recursion with exactly its non-blank / blank masses (extension, keep, merge of an extension into an identical prefix), tokens / length / last token; distinct, best-first, optimal; new prefix relation; fillers; all contents"},
                 bounded="beams of K' <= %d prefixes over V <= %d labels with prefix lengths <= 2, widths below and beyond the number of candidates, one batch element" % ((2, 2) if ctx.quick else (3, 3)))
